@@ -1,9 +1,9 @@
 /-
   Bnum.Model.Random — `src/random.rs` (feature `rand`, rand 0.8): `Standard` for `BUint`/`BInt`,
   `Fill for Slice<T>` / `try_fill_slice`, and `UniformSampler for UniformInt<T>`
-  (`new`, `new_inclusive`, `sample`, `sample_single`, `sample_single_inclusive`; `gen_range(a..b)` is
-  `sample_single`, `gen_range(a..=b)` is `sample_single_inclusive`, `Uniform::new(..).sample` is
-  `new` + `sample`).
+  (`new`, `new_inclusive`, `sample`, `sample_single`, `sample_single_inclusive`), rand's forwarders
+  `Rng::gen_range(a..b)` → `sample_single`, `gen_range(a..=b)` → `sample_single_inclusive`
+  (`genRange`, `genRangeInclusive`), and `Uniform::new(..).sample` = `new` + `sample`.
 
   The RNG.  A scripted `RngCore` is the list of bytes it will hand out: `fill_bytes` /
   `try_fill_bytes(dest)` remove `dest.len()` bytes from the front, in order; if fewer are left the
@@ -208,6 +208,28 @@ def sampleSingle (signed dbg : Bool) (w n : Nat) (low high : Nat) (s : Stream) :
   let m := M w n
   if !(lt signed m low high) then .panic else
   (opSub signed dbg m high 1).bind fun h => sampleSingleInclusive signed dbg w n low h s
+
+/-- `Rng::gen_range(low..high)` (rand 0.8 `rng.rs`, `SampleRange<T> for Range<T>`):
+    `assert!(!range.is_empty())` with `is_empty() = !(start < end)`, then
+    `T::Sampler::sample_single(start, end, rng)` -/
+def genRange (signed dbg : Bool) (w n : Nat) (low high : Nat) (s : Stream) : Outcome Draw :=
+  if !(lt signed (M w n) low high) then .panic else sampleSingle signed dbg w n low high s
+
+/-- `Rng::gen_range(low..=high)` (`SampleRange<T> for RangeInclusive<T>`): `is_empty() =
+    !(start <= end)`, then `T::Sampler::sample_single_inclusive(start, end, rng)` -/
+def genRangeInclusive (signed dbg : Bool) (w n : Nat) (low high : Nat) (s : Stream) : Outcome Draw :=
+  if !(le signed (M w n) low high) then .panic else sampleSingleInclusive signed dbg w n low high s
+
+/-- `len` successive `rng.gen::<T>()` calls (what a slice fill is compared with) -/
+def genMany (w n : Nat) : Nat → Stream → Option (List (List Nat) × Stream)
+  | 0, s => some ([], s)
+  | len + 1, s =>
+    match UI.gen w n s with
+    | none => none
+    | some (d, r) =>
+      match genMany w n len r with
+      | none => none
+      | some (ds, r') => some (d :: ds, r')
 
 /-- `Uniform::new(low, high).sample(rng)` -/
 def uniformNewSample (signed dbg : Bool) (w n : Nat) (low high : Nat) (s : Stream) : Outcome Draw :=
